@@ -71,6 +71,19 @@ where G: GraphRef + IntoNeighbors + Visitable + NodeIndexable, G::NodeId: std::f
     })
 }
 
+/// condensation of a Graph whose node weights are replaced by the node indices
+fn condense<Ty: petgraph::EdgeType, Ix: petgraph::graph::IndexType>(g: &petgraph::Graph<u32, i64, Ty, Ix>, q: &GOp) -> Option<Vec<String>> {
+    if q.0 != "condensation" { return None; }
+    let h = g.map(|ix, _| ix.index() as i64, |_, w| *w);
+    let c = algo::condensation(h, q.1[0] == 1);
+    let mut v = vec![line("nat", &[c.node_count() as i64])];
+    for n in c.node_indices() { v.push(line("comp", &c[n])); }
+    let mut el = Vec::new();
+    for e in c.edge_indices() { let (s, t) = c.edge_endpoints(e).unwrap(); el.extend_from_slice(&[s.index() as i64, t.index() as i64, c[e]]); }
+    v.push(line("el", &el));
+    Some(v)
+}
+
 fn comps<G: NodeIndexable>(g: G, sccs: &[Vec<G::NodeId>]) -> Vec<String> {
     let mut v = vec![line("nat", &[sccs.len() as i64])];
     for c in sccs { v.push(line("comp", &c.iter().map(|x| g.to_index(*x) as i64).collect::<Vec<_>>())); }
@@ -142,7 +155,7 @@ where G: GraphRef + IntoNeighborsDirected + IntoNodeIdentifiers + Visitable + No
     })
 }
 
-fn gen_queries(stream: &str, r: &mut Rng, ids: &[usize], bound: usize, directed_traits: bool, compact: bool) -> Vec<GOp> {
+fn gen_queries(stream: &str, r: &mut Rng, ids: &[usize], bound: usize, directed_traits: bool, compact: bool, enc: usize) -> Vec<GOp> {
     let mut qs: Vec<GOp> = Vec::new();
     let pick = |r: &mut Rng| -> i64 { if ids.is_empty() { 0 } else if r.chance(94) || bound == 0 { ids[r.below(ids.len())] as i64 } else { r.below(bound) as i64 } };
     if stream == "C09" {
@@ -158,6 +171,7 @@ fn gen_queries(stream: &str, r: &mut Rng, ids: &[usize], bound: usize, directed_
             for _ in 0..2 + r.below(3) { qs.push(("has_path".into(), vec![pick(r), pick(r)])); }
             qs.push(("bipartite".into(), vec![pick(r)]));
         }
+        if enc <= 1 { qs.push(("condensation".into(), vec![0])); qs.push(("condensation".into(), vec![1])); }
         return qs;
     }
     if ids.is_empty() { if directed_traits { qs.push(("topo".into(), vec![])); } return qs; }
@@ -189,17 +203,21 @@ fn answer(out: &mut Out, q: &GOp, r: std::thread::Result<Option<Vec<String>>>) {
 }
 
 macro_rules! run_both {
-    ($stream:expr, $g:expr, $eid:expr, $ecount:expr, $ebound:expr, $id:expr, $enc:expr, $r:expr, $out:expr, $compact:tt) => {{
+    ($stream:expr, $g:expr, $eid:expr, $ecount:expr, $ebound:expr, $id:expr, $enc:expr, $r:expr, $out:expr, $compact:tt) => {
+        run_both!($stream, $g, $eid, $ecount, $ebound, $id, $enc, $r, $out, $compact, |_q: &GOp| None::<Vec<String>>)
+    };
+    ($stream:expr, $g:expr, $eid:expr, $ecount:expr, $ebound:expr, $id:expr, $enc:expr, $r:expr, $out:expr, $compact:tt, $extra:expr) => {{
         let g = $g;
+        let extra = $extra;
         let (hdr, ops) = dump_view(g, $eid, $ecount, $ebound, &[$enc as i64]);
         emit_view($out, $id, &hdr, &ops);
         let ids: Vec<usize> = g.node_identifiers().map(|x| NodeIndexable::to_index(&g, x)).collect();
-        let qs: Vec<GOp> = gen_queries($stream, $r, &ids, NodeIndexable::node_bound(&g), true, $compact);
+        let qs: Vec<GOp> = gen_queries($stream, $r, &ids, NodeIndexable::node_bound(&g), true, $compact, $enc);
         for q in &qs {
             let res = catch_unwind(AssertUnwindSafe(|| {
                 query_nb(g, q).map(|s| vec![s]).or_else(|| query_dir(g, q).map(|s| vec![s]))
                     .or_else(|| query_ids(g, q)).or_else(|| query_er(g, q)).or_else(|| query_dir2(g, q))
-                    .or_else(|| compact_q!($compact, g, q))
+                    .or_else(|| compact_q!($compact, g, q)).or_else(|| extra(q))
             }));
             answer($out, q, res);
         }
@@ -212,7 +230,7 @@ macro_rules! run_out_only {
         let (hdr, ops) = dump_view_out(g, $eid, $ecount, $ebound, &[$enc as i64]);
         emit_view($out, $id, &hdr, &ops);
         let ids: Vec<usize> = g.node_identifiers().map(|x| NodeIndexable::to_index(&g, x)).collect();
-        let qs: Vec<GOp> = gen_queries($stream, $r, &ids, NodeIndexable::node_bound(&g), false, $compact);
+        let qs: Vec<GOp> = gen_queries($stream, $r, &ids, NodeIndexable::node_bound(&g), false, $compact, $enc);
         for q in &qs {
             let res = catch_unwind(AssertUnwindSafe(|| {
                 query_nb(g, q).map(|s| vec![s]).or_else(|| query_ids(g, q)).or_else(|| query_er(g, q))
@@ -232,8 +250,8 @@ macro_rules! compact_q {
 pub fn run_enc(stream: &str, id: usize, a: &AbsGraph, enc: usize, r: &mut Rng, out: &mut Out) {
     macro_rules! ty { ($f:ident, $d:ty, $u:ty) => { if a.directed { $f!($d) } else { $f!($u) } }; }
     match enc {
-        0 => { macro_rules! go { ($t:ty) => {{ let g = build_graph::<$t, u32>(a, r); run_both!(stream, &g, |e| e.id().index(), g.edge_count(), g.edge_bound(), id, enc, r, out, true) }}; } ty!(go, Directed, Undirected) }
-        1 => { macro_rules! go { ($t:ty) => {{ let g = build_graph::<$t, u8>(a, r); run_both!(stream, &g, |e| e.id().index(), g.edge_count(), g.edge_bound(), id, enc, r, out, true) }}; } ty!(go, Directed, Undirected) }
+        0 => { macro_rules! go { ($t:ty) => {{ let g = build_graph::<$t, u32>(a, r); run_both!(stream, &g, |e| e.id().index(), g.edge_count(), g.edge_bound(), id, enc, r, out, true, |q: &GOp| condense(&g, q)) }}; } ty!(go, Directed, Undirected) }
+        1 => { macro_rules! go { ($t:ty) => {{ let g = build_graph::<$t, u8>(a, r); run_both!(stream, &g, |e| e.id().index(), g.edge_count(), g.edge_bound(), id, enc, r, out, true, |q: &GOp| condense(&g, q)) }}; } ty!(go, Directed, Undirected) }
         2 => { macro_rules! go { ($t:ty) => {{ let g = build_stable::<$t, u32>(a, r); run_both!(stream, &g, |e| e.id().index(), g.edge_count(), g.edge_bound(), id, enc, r, out, false) }}; } ty!(go, Directed, Undirected) }
         3 => { macro_rules! go { ($t:ty) => {{ let g = build_graphmap::<$t>(a, r); run_both!(stream, &g, |e| { let (s, t) = e.id(); g.all_edges().position(|(x, y, _)| (x, y) == (s, t) || (!a.directed && (x, y) == (t, s))).unwrap_or(9999) }, g.edge_count(), EdgeIndexable::edge_bound(&g), id, enc, r, out, true) }}; } ty!(go, Directed, Undirected) }
         4 => { macro_rules! go { ($t:ty) => {{ let g = build_csr::<$t, u32>(a, r); run_out_only!(stream, &g, |e| e.id(), EdgeCount::edge_count(&g), 0, id, enc, r, out, true) }}; } ty!(go, Directed, Undirected) }
